@@ -55,6 +55,9 @@ def run(ctx):
     f = hue.calls('ProtocolState::complete_operation_as_failure')
     ctx.ob(len(f) == 1 and guarded_any(hue, f[0].bb, [r'^!ProtocolState::operation_packet_passes_offline_queue_policy\(self, .*\.packet\)$']) and show(f[0].arg(2)) == 'GneissError::new_offline_queue_policy_failed()',
            'submission: an operation failing the policy wrapper is failed with the offline-policy error', 'site|submit', loc=hue.loc())
+    rej = prims.edge_nodes_matching(hue, [r'^!ProtocolState::operation_packet_passes_offline_queue_policy\(self, .*\.packet\)$'])
+    enq = [c.bb for c in hue.calls('ProtocolState::enqueue_operation')]
+    ctx.ob(bool(rej) and all(f and f[0].bb in hue.reach([en]) and not any(b in hue.reach([en]) for b in enq) for en in rej), 'completeness: an operation the policy rejects at submission is always failed and never queued', 'site|submit-complete', loc=hue.loc())
     wr = ctx.fn('ProtocolState::operation_packet_passes_offline_queue_policy')
     rr = prims.ret_variants(wr)
     ok = len(rr) == 2 and all((show(e) == 'True' and guarded_any(wr, b, [r'^\(self\.state == ProtocolStateType::Connected\{\}\)$'])) or
